@@ -637,7 +637,16 @@ func (sa *Safe) analyzeFuncSel(fr *frame, args []AVal, st0 *State, sel *selector
 				}
 				retAt[node] = retCase{st, vals}
 				if sa.LenRule {
-					sa.checkLenCovers(fr, st, x.Pos())
+					// only successful returns: an error return legitimately stops in the middle of the item sequence
+					success := true
+					if n := len(vals); n > 0 && fn.Signature.Results().At(n-1).Type().String() == "error" {
+						success = sa.nilOfVal(st, vals[n-1]) == nilYes
+					}
+					// every serialiser is analysed as an entry point of its own (with the carrier premise on its
+					// receiver); re-checking it in the context of a caller adds nothing and loses that premise
+					if success && len(sa.stack) == 1 {
+						sa.checkLenCovers(fr, st, x.Pos())
+					}
 				}
 				done = true
 			case *ssa.Panic:
